@@ -12,7 +12,7 @@ import (
 	zztar "github.com/regclient/regclient/internal/zztar"
 )
 
-const zzOut = "/out"
+const zzOut = "/o" // short, so that a sibling sharing the name as a prefix (../oX) fits the name bound
 
 // zzInside: the path is the output directory or lies below it and has no
 // ".." component.
@@ -40,7 +40,7 @@ func ZZC20_extract() {
 	zztar.Input = nil
 	links := 0
 	for i := 0; i < n; i++ {
-		name := zzString("name", zzInt("name_len", 0, 4+2*zzTier()))
+		name := zzString("name", zzInt("name_len", 0, 5+zzTier()))
 		h := zztar.Header{Name: name, Mode: 0644}
 		switch zzInt("type", 0, 3) {
 		case 0:
